@@ -1663,6 +1663,30 @@ class CodeGenerator(NodeVisitor):
 
     def visit_AssignBlock(self, node: nodes.AssignBlock, frame: Frame) -> None:
         self.push_assign_tracking()
+
+        # Like in visit_Assign, ``a.b`` as the target is only valid if ``a``
+        # is a Namespace object.
+        if isinstance(node.target, nodes.NSRef):
+            nsrefs: t.Iterable[nodes.NSRef] = [node.target]
+        else:
+            nsrefs = node.target.find_all(nodes.NSRef)
+
+        seen_refs: set[str] = set()
+
+        for nsref in nsrefs:
+            if nsref.name in seen_refs:
+                continue
+
+            seen_refs.add(nsref.name)
+            ref = frame.symbols.ref(nsref.name)
+            self.writeline(f"if not isinstance({ref}, Namespace):")
+            self.indent()
+            self.writeline(
+                "raise TemplateRuntimeError"
+                '("cannot assign attribute on non-namespace object")'
+            )
+            self.outdent()
+
         block_frame = frame.inner()
         # This is a special case.  Since a set block always captures we
         # will disable output checks.  This way one can use set blocks
